@@ -7,7 +7,11 @@ TECH = "bounded symbolic execution of the real Python source (sx: AST-instrument
 
 ADDED = (" Instances added after the seeded rounds (DESIGN.md 5.3): preceding workloads (failed parses, other classes, 300-400 earlier calls "
          "through the same function), long concrete context around the symbolic part (kilobyte-sized files with the symbolic character at "
-         "power-of-two offsets, lists of 15-40 members, texts of the full declared length) and rarely used parameters; every run has an "
+         "power-of-two offsets, lists of 15-40 members, texts of the full declared length) and rarely used parameters; ambient state as an "
+         "input (the library loaded as python -O loads it, process-local time zone, the application's warning filters), injected faults "
+         "(network, HTTP, cache write), values at discontinuities (PEP 495 fold, last half millisecond before an offset change) and wider "
+         "lexical spaces (digits of other scripts, characters whose case mapping lands in ASCII, grouping-like decimals, entity text that "
+         "decodes to blanks, every INI boolean spelling); every run has an "
          "overall wall budget and reports what it skipped; the exact bounds of a run are in its evidence file.")
 
 # id -> (claimed?, level text, level note, design ref, technique suffix)
